@@ -49,7 +49,7 @@ CLAIMED = {
          "C07_wrap (outside the range the value is the in-range value at q - kP, k integer, wrapped point in [x0, x_{n-1})), C07_periodic "
          "(S(q + kP) = S(q) for every integer k, using the equal-ends check), C07_ends; rem_euclid law proved for the Rat instance. "
          "Exact runs at Q with k up to +-10^6 and points next to the range ends; f64 with tolerance.", "§5 C07",
-         "f64: rounding of the wrapped argument tested with a tolerance only", "Lean 4 proof (floor/representative uniqueness) + exact periodicity runs + formula tie (kernels re-translated from the source each run, FT_* theorems)"),
+         "f64: the effect of an argument error on the value is bounded (C07_segment_lipschitz, with C02_eval_rounding for the evaluation); the size of the argument error (rem_euclid on floats) is not modelled, tested with a tolerance", "Lean 4 proof (floor/representative uniqueness) + exact periodicity runs + formula tie (kernels re-translated from the source each run, FT_* theorems)"),
  "C08": ("Kernel-checked, for ARBITRARY scalar operations (bit-identity): every model function written with the lane-wise maps commutes "
          "with the lane projection row -> row[j]? and with the single-lane embedding (Lemmas/LanesHom): C08_linear, C08_bilinear, "
          "C08_spline_solve (shared diagonals and elimination factors), C08_spline_coeffs, C08_spline_eval, C08_other_lanes(_spline); "
